@@ -59,8 +59,8 @@ theorem gen_variant :
 
 /-- 1b. The writers call `convert_conventions` once for the whole basis and index the coefficient matrix with
 the returned global permutation (`coeffs[permutation] * signs`).  For every shell list and pair of tables: if
-that call succeeds, the global signed permutation acts exactly like the shell-by-shell conversion of
-theorem 1, every shell's conventions are compatible, and the basis sizes agree. -/
+that call succeeds, the global signed permutation acts exactly like the shell-by-shell conversion
+(`den_convert`), every shell's conventions are compatible, and the basis sizes agree. -/
 theorem convert_global (t1 t2 : Table) (shells : List Shell) (r : List (Nat × Int))
     (h : convBasis t1 t2 (keysOf shells) false = .ok r) :
     (∀ s ∈ shells, Compatible (cvOf t1 s.key) (cvOf t2 s.key)) ∧
